@@ -9,6 +9,7 @@
 #include <sstream>
 #include <string>
 #include <vector>
+#include <algorithm>
 #include <cstdio>
 #include <cstring>
 #include <unistd.h>
@@ -94,8 +95,9 @@ struct Model {
 
   bool apply(const Op &op) {
     step++;
-    switch (op.k % K_N) {
-    case K_ALLOC: { unsigned long size = SIZES[labs(op.a) % NSIZES]; unsigned code = CODES[labs(op.b) % 8];
+    // 100 = allocate exactly op.a bytes, 101 = free the block with id op.a (fragmentation histories address blocks by id)
+    switch (op.k == 100 ? (int)K_ALLOC : op.k == 101 ? (int)K_FREE : op.k % K_N) {
+    case K_ALLOC: { unsigned long size = op.k == 100 ? (unsigned long)op.a : (unsigned long)SIZES[labs(op.a) % NSIZES]; unsigned code = CODES[labs(op.b) % 8];
       int slot = automatic ? free_slot() : -1; if (automatic && slot < 0) break;
       char *p = (char *)stoAlloc(code, size);
       if (automatic) g_roots[slot] = p;     // collections may start inside any allocation: the block is rooted at once
@@ -104,7 +106,7 @@ struct Model {
       unsigned long tsz = stoSize(p); if (freed_classes.count(tsz)) free_then_alloc_same = true;
       Blk b; b.naddr = ~(unsigned long)p; b.size = size; b.code = code; b.seed = nextid * 31 + step; b.rooted = automatic; b.rootslot = slot;
       int id = nextid++; live[id] = b; fill(live[id]); p = 0; break; }
-    case K_FREE: { int id = pick(op.a); if (!id) break; Blk &b = live[id]; if (!verify(id)) return false;
+    case K_FREE: { int id = op.k == 101 ? (live.count((int)op.a) ? (int)op.a : 0) : pick(op.a); if (!id) break; Blk &b = live[id]; if (!verify(id)) return false;
       unsigned long tsz = stoSize(addr(b)); freed_classes.insert(tsz);
       unsigned long s = (unsigned long)addr(b); if (tsz > 256 && (s == last_free_end + 16 || s + tsz + 16 == last_free_start || s == last_free_end || s + tsz == last_free_start)) adj_free = true;
       last_free_start = s; last_free_end = s + tsz;
@@ -187,9 +189,27 @@ static int run_forked(long cfg, const Ops &ops, std::string *msg, bool *nontriv)
 }
 
 static std::string show_ops(long cfg, const Ops &ops) { std::ostringstream o; o << "cfg " << cfg << "\n"; for (auto &p : ops) o << p.k << " " << p.a << " " << p.b << "\n"; return o.str(); }
-static unsigned long S_after_fail = 0, S_cases = 0, S_nontrivial = 0, S_steps = 0; static std::set<size_t> S_distinct;
+static unsigned long S_frag = 0; static unsigned long S_after_fail = 0, S_cases = 0, S_nontrivial = 0, S_steps = 0; static std::set<size_t> S_distinct;
 static void write_file(const char *envname, const std::string &txt) { const char *p = getenv(envname); if (!p) return; FILE *f = fopen(p, "w"); if (!f) return; fwrite(txt.data(), 1, txt.size(), f); fclose(f); }
-static void dump_stats() { std::ostringstream o; o << "cases=" << S_cases << "\nnontrivial=" << S_distinct.size() << "\nsteps=" << S_steps << "\n"; write_file("VERIF_STATS_FILE", o.str()); }
+static void dump_stats() { std::ostringstream o; o << "frag_histories=" << S_frag << "\ncases=" << S_cases << "\nnontrivial=" << S_distinct.size() << "\nsteps=" << S_steps << "\n"; write_file("VERIF_STATS_FILE", o.str()); }
+
+// Fragmentation family: n large blocks of n distinct multi-page-piece sizes, each followed by a live spacer so that the holes cannot merge;
+// the large blocks are freed in one of three orders (n distinct free-piece sizes at once: the allocator's size index grows to several
+// B-tree nodes), then requested again exactly in one of three orders, then everything is freed. Audited after every step.
+static std::vector<int> frag_order(int n, int kind, unsigned long seed) {
+  std::vector<int> v(n); for (int i = 0; i < n; i++) v[i] = i;
+  if (kind == 1) std::reverse(v.begin(), v.end());
+  if (kind == 2) for (int i = n - 1; i > 0; i--) { seed = seed * 6364136223846793005UL + 1442695040888963407UL; std::swap(v[i], v[(seed >> 33) % (i + 1)]); }
+  return v; }
+static Ops frag_history(int n, int step256, int ofree, int otake, int ofinal, unsigned long seed) {
+  Ops ops; auto sz = [&](int i) { return 300L + 256L * step256 * i; };
+  for (int i = 0; i < n; i++) { ops.push_back({100, sz(i), i}); ops.push_back({100, 300, 0}); }          // ids 2i+1 (large), 2i+2 (spacer)
+  for (int i : frag_order(n, ofree, seed)) ops.push_back({101, 2 * i + 1, 0});
+  int next = 2 * n + 1; std::vector<int> again;
+  for (int i : frag_order(n, otake, seed + 1)) { ops.push_back({100, sz(i), i}); again.push_back(next++); }
+  std::vector<int> all; for (int i = 0; i < n; i++) all.push_back(2 * i + 2); for (int id : again) all.push_back(id);
+  for (int j : frag_order((int)all.size(), ofinal, seed + 2)) ops.push_back({101, all[j], 0});
+  return ops; }
 
 int main(int argc, char **argv) {
   if (argc >= 3 && !strcmp(argv[1], "--replay")) {
@@ -220,8 +240,18 @@ int main(int argc, char **argv) {
     Op o; o.k = sel[std::get<0>(t)]; o.a = std::get<1>(t); o.b = std::get<2>(t); return o; });
   bool ok = rc::check("C10 store", [&]() {
     long cfg = *rc::gen::resize(50, rc::gen::inRange<long>(0, 2));
-    int len = *rc::gen::resize(100, rc::gen::inRange(1, maxlen));
-    Ops ops = *rc::gen::container<Ops>(len, genOp);
+    Ops ops;
+    if (*rc::gen::resize(50, rc::gen::inRange(0, 5)) == 0) {
+      // one case in five: a fragmentation history (explicit frees only; roots are limited to 256 slots in automatic mode)
+      int n = *rc::gen::resize(100, rc::gen::inRange(33, 121)); if (cfg & 1) n = n > 100 ? 100 : n;
+      int st = *rc::gen::resize(50, rc::gen::inRange(1, 3));
+      int o1 = *rc::gen::resize(50, rc::gen::inRange(0, 3)), o2 = *rc::gen::resize(50, rc::gen::inRange(0, 3)), o3 = *rc::gen::resize(50, rc::gen::inRange(0, 3));
+      unsigned long sd = *rc::gen::resize(100, rc::gen::inRange<unsigned long>(0, 100000));
+      ops = frag_history(n, st, o1, o2, o3, sd); S_frag++;
+    } else {
+      int len = *rc::gen::resize(100, rc::gen::inRange(1, maxlen));
+      ops = *rc::gen::container<Ops>(len, genOp);
+    }
     std::string txt = show_ops(cfg, ops); write_file("VERIF_CASE_FILE", txt);
     static int fails_seen = 0; int cap = getenv("VERIF_SHRINK_CAP") ? atoi(getenv("VERIF_SHRINK_CAP")) : 400;
     if (fails_seen > 0 && (int)S_after_fail++ > cap * 20) return;       // shrink budget exhausted: keep the best case found so far
